@@ -52,12 +52,16 @@ def run_job(job, rec):
         far = bool(rng.random() < 0.2) and G.count_cp_kernels(spec) == 0
         x = G.random_points(rng, n, d, far=far)
         theta = G.random_theta(spec, rng, x, y_scale=10.0 ** rng.uniform(-2, 2))
-        via_add = bool(rng.random() < 0.5)
+        via_add = [False, "left", "right", "balanced"][int(rng.integers(4))]   # how a sum is put together
+        share = bool(rng.random() < 0.25)                                        # one object per kernel class, used for every term of that class
         desc = G.describe(spec)
-        rec.context = {"case": c, "spec": desc, "n": n, "d": d, "via_add": via_add, "far_from_origin": far}
+        rec.context = {"case": c, "spec": desc, "n": n, "d": d, "via_add": via_add, "shared_instances": share, "far_from_origin": far}
+        rec.count(f"assembly:{via_add or 'constructor'}")
+        if share:
+            rec.count("assembly:shared_instances")
         if far:
             rec.count("cases:far_from_origin")
-        K = guarded(G.build_repo_kernel, spec, via_add)
+        K = guarded(G.build_repo_kernel, spec, via_add, share)
         if isinstance(K, Raised):
             rec.violation("raised", f"building {desc} raised {K!r}", rec.context)
             continue
